@@ -64,6 +64,9 @@ package console
 //@ lemma rowLess(r uint32, b uint32, r0 uint32, b0 uint32, p uint32): b < p && r < r0 ==> r*p + b < r0*p + b0
 //@   by auto
 //@   property C19
+//@ lemma mulMono(a uint32, b uint32, w uint32): a <= b ==> a*w <= b*w
+//@   by auto
+//@   property C19
 
 // ---- VESA framebuffer console -----------------------------------------------------------------
 //@ pred wfFont(f *font.Font) = f != nil && f.GlyphWidth >= 1 && f.GlyphWidth <= 32 && f.GlyphHeight >= 1 && f.GlyphHeight <= 64 && f.BytesPerRow == (f.GlyphWidth + 7) / 8 && !isnil(f.Data) && len(f.Data) >= 256*f.BytesPerRow*f.GlyphHeight
@@ -130,6 +133,7 @@ package console
 //@   loop 2 invariant paintedRow: painted16(cons, pX, pY + (h0 - pH), k, 1, bg)
 //@   loop 2 invariant cols: forall(r, uint32, b, uint32, r < cons.height && b < cons.pitch && !inPix(cons, r, b, pX, pY, pW, h0 - pH) && !(r == pY + cons.offsetY + (h0 - pH) && b >= pX*2 && b < pX*2 + k*2) ==> fbAt(cons, r, b) == old(fbAt(cons, r, b)))
 //@   loop 2 backedge use forall(r, uint32, b, uint32, rowcol(r, b, pY + cons.offsetY + (h0 - pH), pX*2 + (k-1)*2, cons.pitch)); forall(r, uint32, b, uint32, rowcol(r, b, pY + cons.offsetY + (h0 - pH), pX*2 + (k-1)*2 + 1, cons.pitch))
+//@   loop 2 backedge use forall(r, uint32, x, uint32, rowLess(r, x*2 + 1, pY + cons.offsetY + (h0 - pH), pX*2 + (k-1)*2, cons.pitch))
 
 //@ func (cons *VesaFbConsole) fill24(pX uint32, pY uint32, pW uint32, pH uint32, bg uint8)
 //@   property C19
@@ -140,15 +144,21 @@ package console
 //@   loop 1 (pH > 0) ghost h0 = pH
 //@   loop 1 invariant pH <= h0 && fbRowOffset == (pY + cons.offsetY + (h0 - pH))*cons.pitch + pX*cons.bytesPerPixel && h0 == old(pH) && (cons.bytesPerPixel == 3 || cons.bytesPerPixel == 4)
 //@   loop 1 invariant rows: outsideSame(cons, pX, pY, pW, h0 - pH)
-//@   loop 1 invariant painted: painted24(cons, pX, pY, pW, h0 - pH, bg)
+//@   loop 1 invariant lin: (cons.bytesPerPixel == 3 ==> fbRowOffset == (pY + cons.offsetY + (h0 - pH))*cons.pitch + pX*3) && (cons.bytesPerPixel == 4 ==> fbRowOffset == (pY + cons.offsetY + (h0 - pH))*cons.pitch + pX*4)
+//@   loop 1 invariant painted3: cons.bytesPerPixel == 3 ==> painted24b(cons, pX, pY, pW, h0 - pH, bg, 3)
+//@   loop 1 invariant painted4: cons.bytesPerPixel == 4 ==> painted24b(cons, pX, pY, pW, h0 - pH, bg, 4)
 //@   loop 1 invariant colour: comp[0] == uint8(packed24(cons, bg)) && comp[1] == uint8(packed24(cons, bg) >> 8) && comp[2] == uint8(packed24(cons, bg) >> 16)
 //@   loop 2 (fbOffset < fbRowOffset+pW*cons.bytesPerPixel) ghost k = 0
 //@   loop 2 step k = k + 1
 //@   loop 2 invariant k <= pW && fbOffset == fbRowOffset + k*cons.bytesPerPixel && pH >= 1
-//@   loop 2 invariant paintedAbove: painted24(cons, pX, pY, pW, h0 - pH, bg)
+//@   loop 2 invariant lin: (cons.bytesPerPixel == 3 ==> fbOffset == (pY + cons.offsetY + (h0 - pH))*cons.pitch + pX*3 + k*3) && (cons.bytesPerPixel == 4 ==> fbOffset == (pY + cons.offsetY + (h0 - pH))*cons.pitch + pX*4 + k*4)
+//@   loop 2 invariant paintedAbove3: cons.bytesPerPixel == 3 ==> painted24b(cons, pX, pY, pW, h0 - pH, bg, 3)
+//@   loop 2 invariant paintedAbove4: cons.bytesPerPixel == 4 ==> painted24b(cons, pX, pY, pW, h0 - pH, bg, 4)
 //@   loop 2 invariant colour: comp[0] == uint8(packed24(cons, bg)) && comp[1] == uint8(packed24(cons, bg) >> 8) && comp[2] == uint8(packed24(cons, bg) >> 16)
-//@   loop 2 invariant paintedRow: painted24(cons, pX, pY + (h0 - pH), k, 1, bg)
+//@   loop 2 invariant paintedRow3: cons.bytesPerPixel == 3 ==> painted24b(cons, pX, pY + (h0 - pH), k, 1, bg, 3)
+//@   loop 2 invariant paintedRow4: cons.bytesPerPixel == 4 ==> painted24b(cons, pX, pY + (h0 - pH), k, 1, bg, 4)
 //@   loop 2 invariant cols: forall(r, uint32, b, uint32, r < cons.height && b < cons.pitch && !inPix(cons, r, b, pX, pY, pW, h0 - pH) && !(r == pY + cons.offsetY + (h0 - pH) && b >= pX*cons.bytesPerPixel && b < pX*cons.bytesPerPixel + k*cons.bytesPerPixel) ==> fbAt(cons, r, b) == old(fbAt(cons, r, b)))
+//@   loop 2 use mulMono(pW, k, cons.bytesPerPixel); mulMono(pX + k + 1, cons.width, cons.bytesPerPixel); rowLess(pY + cons.offsetY + (h0 - pH), (pX + k)*cons.bytesPerPixel + 2, cons.height, 0, cons.pitch)
 //@   loop 2 backedge use forall(r, uint32, b, uint32, rowcol(r, b, pY + cons.offsetY + (h0 - pH), (pX + k - 1)*cons.bytesPerPixel, cons.pitch)); forall(r, uint32, b, uint32, rowcol(r, b, pY + cons.offsetY + (h0 - pH), (pX + k - 1)*cons.bytesPerPixel + 1, cons.pitch)); forall(r, uint32, b, uint32, rowcol(r, b, pY + cons.offsetY + (h0 - pH), (pX + k - 1)*cons.bytesPerPixel + 2, cons.pitch))
 //@   loop 2 backedge use forall(r, uint32, x, uint32, rowLess(r, x*3 + 2, pY + cons.offsetY + (h0 - pH), (pX + k - 1)*cons.bytesPerPixel, cons.pitch)); forall(r, uint32, x, uint32, rowLess(r, x*4 + 2, pY + cons.offsetY + (h0 - pH), (pX + k - 1)*cons.bytesPerPixel, cons.pitch))
 
